@@ -11,6 +11,7 @@ package main
 //   mux setupsync <n>                  n logical channels set up against a peer whose acknowledgement is routed before
 //                                       the client's Write of the setup packet returns
 //   mux closeiso <cap> <extra>          a logical channel is closed while another one holds cap+extra unread packages
+//   mux closefail <once>                a logical channel is closed while the transport refuses the teardown packet
 //   mux setup <acktype>                 NewChannel for a logical channel succeeds iff the reply is a header-only
 //                                       PROTACK packet
 // (route, tx and setup are judged by the oracle only; the Lean theorems c12_routing / c12_unknown_channel /
@@ -396,6 +397,53 @@ func muxImpl(line string) string {
 			}
 		}
 		return "ok closeiso"
+	case "closefail":
+		// a logical channel is closed while the transport refuses the write of the teardown packet (once, or
+		// from then on): the client-side teardown happens all the same — the id is no longer routed (a later
+		// packet for it is a connection error), the closed channel answers ErrChannelClosed, and the other
+		// channel still gets its packages
+		once := arg(2) == 1
+		mc := newMemConn()
+		conn, _ := tds.VerifNewConn(context.Background(), mc, testInfo(), true)
+		defer conn.VerifCancel()
+		conn.VerifNewChannel(0)
+		a, b := conn.VerifNewChannel(1), conn.VerifNewChannel(2)
+		mc.mu.Lock()
+		mc.failWriteAt = mc.writes + 1
+		mc.failOnce = once
+		mc.mu.Unlock()
+		closed := make(chan error, 1)
+		go func() { closed <- a.Close() }()
+		select {
+		case err := <-closed:
+			if err == nil {
+				return "a failed write of the teardown packet is reported by Close"
+			}
+		case <-time.After(1500 * time.Millisecond):
+			return "closing a channel returns in bounded time when the transport refuses the teardown packet"
+		}
+		for _, id := range []int{1, 2} {
+			body := wDone(0xFD, 1, 0, id)
+			mc.feed(append([]byte{4, 1, 0, byte(len(body) + 8), 0, byte(id), 0, 0}, body...))
+		}
+		ctx, cancel := context.WithTimeout(context.Background(), 1500*time.Millisecond)
+		defer cancel()
+		if _, err := a.NextPackage(ctx, true); err == nil || !strings.Contains(err.Error(), tds.ErrChannelClosed.Error()) {
+			return fmt.Sprintf("a closed channel delivers nothing and answers that it is closed (got %v)", err)
+		}
+		select {
+		case err := <-conn.VerifErrCh():
+			if err == nil || !strings.Contains(err.Error(), "invalid channel") {
+				return fmt.Sprintf("a packet for a closed channel is reported as a connection error (got %v)", err)
+			}
+		case <-ctx.Done():
+			return "a packet for a closed channel is reported as a connection error (nothing reported)"
+		}
+		pkg, err := b.NextPackage(ctx, true)
+		if d, ok := pkg.(*tds.DonePackage); err != nil || !ok || d.Count != 2 {
+			return fmt.Sprintf("the other channel still gets its packages (got %v %v)", pkg, err)
+		}
+		return "ok closefail"
 	case "tx":
 		nchan, nmsg, seed := arg(2), arg(3), arg(4)
 		mc := newMemConn()
@@ -489,6 +537,7 @@ func init() {
 				emit(Case{Line: fmt.Sprintf("mux tx %d %d %d", 1+rng.Intn(8), 1+rng.Intn(6), rng.Intn(1<<30)), Kind: "tx"})
 				if i%4 == 0 {
 					emit(Case{Line: fmt.Sprintf("mux closeiso %d %d", 1+rng.Intn(5), rng.Intn(4)), Kind: "close-isolated"})
+					emit(Case{Line: fmt.Sprintf("mux closefail %d #%d", i/4%2, i), Kind: "close-write-fails"})
 					emit(Case{Line: fmt.Sprintf("mux setupsync %d", 1+rng.Intn(4)), Kind: "setup-ack-at-once"})
 				}
 			}
